@@ -164,7 +164,13 @@ def run_cli(shard, ctx, origin_ref):
         cr = cli_runs.fasta_case(rng, scratch / f"c{i}", tagged=rng.random() < 0.5) if m == 1 else cli_runs.text_case(rng, scratch / f"c{i}", fmt="tpf", tagged=True)
         try:
             origin_ref["origin"] = "pretext-to-asm"
-            res = cli_runs.run_pretext_to_asm(cr, out_name="out.fa" if m == 1 else "out.agp")
+            from vf.props.c17 import patched_buffer
+
+            bs = rng.choice([3, 16, 60, 250000]) if m == 1 else 250000
+            with patched_buffer(bs):  # gaps and fragments longer than the stream buffer
+                res = cli_runs.run_pretext_to_asm(cr, out_name="out.fa" if m == 1 else "out.agp")
+            if bs < 250000:
+                ctx.count("cli:small-stream-buffer")
             if res["exit_code"] != 0:
                 ctx.count("cli:error-exit")
                 continue
@@ -228,5 +234,6 @@ def gates(c, tier):
         "asm-format:agp-texts": 10,
         "pretext-to-asm:agp-texts": 50,
         "cli:agp-with-fasta": 10,
+        "cli:small-stream-buffer": 10,
     }
     return [f"{k}>={v} (got {c.get(k, 0)})" for k, v in need.items() if c.get(k, 0) < v]
